@@ -56,7 +56,8 @@ class Token:
         self.is_keyword = ttype in T.Keyword
         self.is_whitespace = self.ttype in T.Whitespace
         self.is_newline = self.ttype in T.Newline
-        self.normalized = value.upper() if self.is_keyword else value
+        self.normalized = (re.sub(r'\s+', ' ', value.upper())
+                           if self.is_keyword else value)
 
     def __str__(self):
         return self.value
